@@ -96,7 +96,11 @@ def check(ctx):
                 reorder = [cname(tt) for bb, tt in fn.calls() if cname(tt) in REORDER]
                 ok = ok and lossy and not reorder
             ctx.check(ok, "delegation", name + ":args", "DbXxx::%s is not bulk byte variant + in-order lossy decoding" % name, where=where(fn))
-        elif name in ("bulk_get", "bulk_delete"):
+        if name.startswith("bulk_"):
+            check_no_element_dropped(ctx, prog, fn, name)
+        if name in ("get_string", "delete_string", "bulk_get_string", "bulk_delete_string"):
+            check_lossy_only(ctx, prog, fn, name)
+        if name in ("bulk_get", "bulk_delete"):
             check_bulk_indexed(ctx, prog, fn, name, sites)
         elif name in ("bulk_put", "bulk_put_string"):
             check_bulk_put(ctx, prog, fn, name, sites)
@@ -111,6 +115,102 @@ def check(ctx):
                 ok = from_next(kv[0], "f:0") and from_next(kv[1], "f:1")
             ctx.check(ok and not reorder and len(nxt) == 1, "delegation", name + ":in-order",
                       "put_from_iter does not apply put_kt(key, value) to each pair in iteration order (reordering calls: %s)" % reorder, where=where(fn))
+
+
+# std collection / iterator / string methods that neither drop, duplicate nor alter elements
+KEEPS_ALL = {"to_vec", "collect", "new", "with_capacity", "deref", "deref_mut", "iter", "iter_mut", "into_iter", "enumerate", "map", "rev",
+             "cloned", "copied", "next", "pop", "push", "len", "is_empty", "as_slice", "as_mut_slice", "as_ref", "as_mut", "borrow",
+             "sort", "sort_by", "sort_by_key", "sort_by_cached_key", "sort_unstable", "sort_unstable_by", "sort_unstable_by_key", "reverse",
+             "cmp", "partial_cmp", "then", "then_with", "clone", "into", "from", "unwrap", "expect", "branch", "from_residual", "for_each",
+             "index", "index_mut", "get", "get_mut", "first", "last", "reserve", "extend", "zip", "by_ref", "size_hint", "drop", "from_iter"}
+LOSSY_OK = {"deref", "as_ref", "as_slice", "borrow", "from_utf8_lossy", "to_string", "into_owned", "to_owned", "into", "from", "clone", "map",
+            "from_utf8", "as_bytes", "into_bytes"}
+
+
+def _all_closures(prog, fn):
+    out = []
+    for c in prog.closures_of(fn):
+        out.append(c)
+        out += _all_closures(prog, c)
+    return out
+
+
+def check_no_element_dropped(ctx, prog, fn, name):
+    """Every std collection / iterator method used by a bulk method keeps all elements (no dedup / retain / filter /
+    truncate / skip / take ...): the batch is only copied, permuted, consumed and indexed."""
+    bad = []
+    for c in [fn] + _all_closures(prog, fn):
+        for b, t in c.calls():
+            if c.is_cleanup(b):
+                continue
+            cal = t.get("callee") or ""
+            if cal.startswith(("core::iter::", "core::slice::", "alloc::slice::", "alloc::vec::", "core::option::Option", "alloc::collections::")):
+                nm = cal.rsplit("::", 1)[-1]
+                if nm not in KEEPS_ALL:
+                    bad.append((c, b, short(cal)))
+    ctx.check(not bad, "bulk-keeps-every-element", name, "%s uses %s on its work list: elements of the batch can be dropped, repeated or cut"
+              % (name, sorted({x[2] for x in bad})), where=where(bad[0][0], bad[0][1]) if bad else where(fn))
+
+
+def check_lossy_only(ctx, prog, fn, name):
+    """The *_string readers decode the whole value with String::from_utf8_lossy and nothing else."""
+    decs = []
+    bad = []
+    for c in [fn] + _all_closures(prog, fn):
+        for b, t in c.calls():
+            if c.is_cleanup(b):
+                continue
+            cal = t.get("callee") or ""
+            nm = cal.rsplit("::", 1)[-1]
+            if cal.endswith("String::from_utf8_lossy"):
+                decs.append((c, b, t))
+            elif cal.startswith(("alloc::string::", "alloc::str::", "core::str::", "alloc::borrow::")) and nm not in LOSSY_OK:
+                bad.append((c, b, short(cal)))
+    seen = set()
+    decs = [d for d in decs if (d[0].id, d[1]) not in seen and not seen.add((d[0].id, d[1]))]
+    ok = len(decs) >= 1 and not bad
+    homes = {c.id for c, b, t in decs}
+    ok = ok and len(homes) == 1
+
+    def whole_value(c, os_, depth=0):
+        """origins are the closure's value parameter as a whole, possibly via the error of a strict from_utf8 of it"""
+        os_ = _strip(prog, c, os_)
+        if not os_:
+            return False
+        for x in os_:
+            if x.kind == "param" and not [p_ for p_ in x.proj if p_.startswith(("idx", "sub"))]:
+                continue
+            if x.kind == "call" and depth < 4 and (x.data.get("callee") or "").rsplit("::", 1)[-1] in ("from_utf8", "as_bytes", "into_bytes", "into_vec") and x.data.get("args") \
+                    and whole_value(c, leaf_origins(prog, c, x.data["args"][0], at=x.block, terminal_only=True, opaque_index=True), depth + 1):
+                continue
+            return False
+        return True
+    if ok:
+        c = decs[0][0]
+        for _, b, t in decs:
+            ok = ok and whole_value(c, leaf_origins(prog, c, t["args"][0], at=b, terminal_only=True, opaque_index=True))
+        r = _strip_str(prog, c, tracer(prog, c).place({"l": 0, "p": []}))
+        dec_blocks = {b for _, b, t in decs}
+        for x in r:
+            if x.kind == "call" and x.block in dec_blocks:
+                continue
+            if x.kind == "call" and (x.data.get("callee") or "").endswith("String::from_utf8") and whole_value(c, leaf_origins(prog, c, x.data["args"][0], at=x.block, terminal_only=True, opaque_index=True)):
+                continue
+            ok = False
+        ok = ok and bool(r)
+    ctx.check(ok, "string-variant-is-lossy-decoding", name,
+              "%s does not return String::from_utf8_lossy(<the whole value>) (decoders: %d, other string calls: %s)" % (name, len(decs), sorted({x[2] for x in bad})),
+              where=where(fn))
+
+
+def _strip_str(prog, fn, os_, depth=0):
+    out = []
+    for o in os_:
+        if o.kind == "call" and depth < 5 and (o.data.get("callee") or "").rsplit("::", 1)[-1] in ("to_string", "into_owned", "to_owned", "into", "from", "clone") and o.data.get("args"):
+            out.extend(_strip_str(prog, fn, leaf_origins(prog, fn, o.data["args"][0], at=o.block, terminal_only=True), depth + 1))
+        else:
+            out.append(o)
+    return out
 
 
 def check_bulk_indexed(ctx, prog, fn, name, sites):
@@ -217,7 +317,7 @@ def check_bulk_put(ctx, prog, fn, name, sites):
 def _strip(prog, fn, os_):
     out = []
     for o in os_:
-        if o.kind == "call" and (o.data.get("callee") or "").rsplit("::", 1)[-1] in ("as_bytes", "as_str", "deref", "as_ref") and o.data.get("args"):
+        if o.kind == "call" and (o.data.get("callee") or "").rsplit("::", 1)[-1] in ("as_bytes", "as_str", "deref", "as_ref", "as_slice", "borrow") and o.data.get("args"):
             out.extend(_strip(prog, fn, leaf_origins(prog, fn, o.data["args"][0], at=o.block, terminal_only=True, opaque_index=True)))
         else:
             out.append(o)
